@@ -336,12 +336,21 @@ class SpawnProcess(multiprocessing.context.SpawnProcess):
         assert exitcode == 0
         return self._mpservice_exitcode_
 
+    def _join_process(self, timeout=None):
+        super().join(timeout)
+        if timeout is None:
+            # The process has exited. The result collector thread polls `exitcode`
+            # at the same time; if it happened to reap the child first (`os.waitpid`
+            # works once), the exit code shows up in this thread a moment later.
+            while self.exitcode is None:
+                time.sleep(0.001)
+
     def join(self, timeout=None):
         """
         Same behavior as the standard lib, except that if the process
         terminates with an exception, the exception is raised.
         """
-        super().join(timeout=timeout)
+        self._join_process(timeout)
         if not self.done():
             # timed out
             return
@@ -391,7 +400,7 @@ class SpawnProcess(multiprocessing.context.SpawnProcess):
         """
         Behavior is similar to ``concurrent.futures.Future.exception``.
         """
-        super().join(timeout)
+        self._join_process(timeout)
         if not self.done():
             raise TimeoutError
         self._result_collector_thread_.join()
